@@ -55,7 +55,7 @@ func sn(k int) string { return fmt.Sprintf("%s%d", c17Prefix, k) }
 
 var c17FieldNames = []string{"A", "B", "C", "D"}
 var c17BaseTypes = []string{"int64", "string", "float64", "bool", "[]int64", "[]string"}
-var c17Kinds = []string{"int", "char", "float", "bool", "string", "ints", "strs", "empty", "nil", "ptr0", "ptr1", "inst0", "inst1", "inst2"}
+var c17Kinds = []string{"int", "char", "float", "bool", "string", "ints", "strs", "empty", "nil", "ptr0", "ptr1", "inst0", "inst1", "inst2", "nilarr", "listarr"}
 
 func typeSrc(t string) string {
 	switch {
@@ -231,6 +231,12 @@ func execC17(body json.RawMessage) *kernel.Result {
 			return "[]"
 		case "nil":
 			return "nil"
+		case "nilarr":
+			return "[nil 2]" // a non-empty array whose first element has no type
+		case "listarr":
+			return "[(quote (1 2)) 3]"
+		case "mixed":
+			return `[1 "a"]`
 		}
 		if strings.HasPrefix(kind, "ptr") || strings.HasPrefix(kind, "inst") {
 			isPtr := strings.HasPrefix(kind, "ptr")
@@ -437,6 +443,9 @@ func execC17(body json.RawMessage) *kernel.Result {
 				} else {
 					text = fmt.Sprintf("{%s[%%%s] = %s}", target, op.Field, src)
 				}
+			case "nested":
+				// two-component path through a struct-typed field: {w.F.G = v}
+				text = fmt.Sprintf("{%s.%s = %s}", target, op.Field, src)
 			case "strkey":
 				// the field named by a string instead of a symbol
 				text = fmt.Sprintf("(hset %s %q %s)", target, op.Field, src)
@@ -446,6 +455,10 @@ func execC17(body json.RawMessage) *kernel.Result {
 			before := show(h)
 			o := ev(e, text)
 			t, declared := in.def[op.Field]
+			if op.Route == "nested" {
+				// judged by the invariant check and the rejected-write clause only
+				t, declared = "", false
+			}
 			if op.Route == "strkey" {
 				declared = false // fields are named by symbols; a string key names no declared field
 			}
@@ -657,6 +670,24 @@ func genC17(r *kernel.RNG, tier string, i int) interface{} {
 				op.Field = "Zed"
 			}
 			op.Route = r.Pick([]string{"hset", "dot", "infix", "index", "hset", "strkey"})
+			if op.Op == "write" {
+				// a nested path through a struct-typed field (set or unset), to a declared or undeclared leaf
+				for _, nf := range fs {
+					if strings.HasPrefix(nf.Type, "S") && r.Chance(0.5) {
+						var k int
+						fmt.Sscanf(nf.Type[1:], "%d", &k)
+						if len(declared[k]) > 0 {
+							leaf := declared[k][r.Intn(len(declared[k]))]
+							op.Route = "nested"
+							op.Field = nf.Name + "." + leaf.Name
+							if r.Chance(0.1) {
+								op.Field = nf.Name + ".Zed"
+							}
+							op.Kind = pickKind(e, leaf.Type)
+						}
+					}
+				}
+			}
 			if op.Op == "pwrite" {
 				found := false
 				for p := 0; p < 2; p++ {
